@@ -1,5 +1,17 @@
 #!/bin/bash
-# tools/seed_try.sh <PROP> <dir>: confirm a seeded change and run the property's quick check against it
-id=$1; d=$2
+# tools/seed_try.sh <PROP> <dir> [extra PROP ...]: confirm a seeded change, then run the quick check(s) against it
+# in a scratch worktree with its own build cache and evidence directory (/repo, .cache and evidence/ stay untouched,
+# so this can run next to other checks).
+id=$1; d=$(realpath $2); shift 2
 ./tools/seed_confirm.sh $id $d 2>&1 | grep RESULT | cut -c1-80 | tee -a /tmp/seed-confirm-4.log
-tools/with_patch.sh $d/patch.diff timeout 1800 ./check $id --tier quick 2>&1 | grep -v "KNOWN\|first case" | tail -4 | cut -c1-260
+wt=/tmp/wtc-try
+if [ ! -d $wt ]; then git -C /repo worktree add -q --detach $wt HEAD || exit 9; fi
+git -C $wt checkout -q --detach $(git -C /repo rev-parse HEAD) && git -C $wt checkout -q -- . || exit 9
+git -C $wt apply $d/patch.diff || { echo "patch does not apply"; exit 9; }
+export VERIF_REPO=$wt VERIF_CACHE=/tmp/wtc-try-cache VERIF_EVIDENCE=/tmp/wtc-try-evidence
+mkdir -p $VERIF_EVIDENCE
+for p in $id "$@"; do
+  timeout 3600 ./check $p --tier ${TIER:-quick} 2>&1 | grep -v "KNOWN\|first case" | tail -4 | cut -c1-260
+  echo "exit=${PIPESTATUS[0]}"
+done
+git -C $wt checkout -q -- .
